@@ -68,6 +68,11 @@ def verify_resolution(ws: typing.Any, d: str, idx: int, comp: typing.Any, alone:
     body = comp.request_type if isinstance(comp, pydsdl.ServiceType) else comp
     consts = {c.name: c.value.native_value for c in body.constants}
     require(consts.get("ID") == idx, "resolved-to-wrong-body", idx, str(consts.get("ID")), where + " (%s)" % (want_ident,))
+    require(consts.get("REV") == df.get("rev", 0), "stale-definition-text", df.get("rev", 0), str(consts.get("REV")), where + " (%s)" % (want_ident,))
+    for k, ref in enumerate(df["refs"]):
+        want_rev = ws["defs"][ref["to"]].get("rev", 0)
+        require(consts.get("COPY%d" % k) == want_rev, "constant-read-from-wrong-definition", want_rev, str(consts.get("COPY%d" % k)),
+                where + " (%s COPY%d)" % (want_ident, k))
     if idx in alone:
         fp = wsp.fingerprint(comp)
         require(fp == alone[idx], "nested-type-differs-from-standalone-read", alone[idx], fp, where + " definition %s" % (want_ident,))
@@ -140,6 +145,7 @@ def check_resolve(case: typing.Any, ctx: Ctx) -> Info:
 
 def inject_fault(ws: typing.Any, fault: typing.Any) -> typing.Tuple[typing.Any, typing.Optional[typing.Dict[str, typing.Any]]]:
     """Returns (workspace with the fault, description {carriers: set of definition indices whose reading must fail, ...})."""
+    case_ws_copy = copy.deepcopy(ws)
     ws = copy.deepcopy(ws)
     defs = ws["defs"]
     n = len(defs)
@@ -179,15 +185,30 @@ def inject_fault(ws: typing.Any, fault: typing.Any) -> typing.Tuple[typing.Any, 
         add_line(c, "@assert %s.%d.%d.ID == 0" % (wsp.full_name(ws, t), v[0], v[1]))
         return ws, {"carriers": {c}, "kind": kind}
     if kind == "self":
-        add_line(c, "@assert %s.ID == %d" % (ref_name(c, c), c))
+        add_line(c, "@assert %s.ID >= 0" % ref_name(c, c))
         return ws, {"carriers": {c}, "kind": kind, "edges": [(c, c)]}
+    if kind in ("self-with-twin", "cycle-with-twin"):
+        # a self / cyclic reference while ANOTHER file defines the same name and version (second root of the same name, same
+        # layout, other body): the reference must still fail - it must not be closed silently through the namesake
+        if kind == "self-with-twin":
+            back = c
+        else:
+            reach = sorted(wsp.closure(ws, [c]) - {c})
+            if not reach:
+                return ws, None
+            back = reach[fault["other"] % len(reach)]
+        add_line(back, "@assert %s.ID >= 0" % ref_name(c, back))
+        ws["roots"].append({"parent": "dup", "name": ws["roots"][carrier["root"]]["name"]})
+        twin_text = "\n".join(l for l in wsp.text_of(case_ws_copy, c).split("\n") if not l.startswith("@assert")).replace("uint32 ID = %d" % c, "uint32 ID = 777")
+        ws["twins"] = [dict(carrier, root=len(ws["roots"]) - 1, text=twin_text, twin_of=c)]
+        return ws, {"carriers": {c, back}, "kind": kind, "edges": [(back, c)]}
     if kind == "wrong-case":
         j = fault["other"] % n
         name = wsp.full_name(ws, defs[j])
         swapped = name[:-1] + name[-1].swapcase() if name[-1].isalpha() else name.swapcase()
         if swapped == name or any(wsp.full_name(ws, x) == swapped for x in defs):
             return ws, None
-        add_line(c, "@assert %s.%d.%d.ID == %d" % (swapped, defs[j]["version"][0], defs[j]["version"][1], j))
+        add_line(c, "@assert %s.%d.%d.ID >= 0" % (swapped, defs[j]["version"][0], defs[j]["version"][1]))
         return ws, {"carriers": {c}, "kind": kind}
     if kind == "cycle":
         # close a cycle: some definition reachable from the carrier refers back to the carrier (length 2..3)
@@ -195,7 +216,7 @@ def inject_fault(ws: typing.Any, fault: typing.Any) -> typing.Tuple[typing.Any, 
         if not reach:
             return ws, None
         back = reach[fault["other"] % len(reach)]
-        add_line(back, "@assert %s.ID == %d" % (ref_name(c, back), c))
+        add_line(back, "@assert %s.ID >= 0" % ref_name(c, back))
         on_cycle = {i for i in range(n) if c in wsp.closure(ws, [i]) and back in wsp.closure(ws, [i])} | {c, back}
         return ws, {"carriers": {c, back}, "kind": kind, "edges": [(back, c)]}
     if kind == "duplicate-in-second-root":
@@ -206,7 +227,7 @@ def inject_fault(ws: typing.Any, fault: typing.Any) -> typing.Tuple[typing.Any, 
         ws["roots"].append({"parent": "dup", "name": ws["roots"][t["root"]]["name"]})
         twin = dict(t, root=len(ws["roots"]) - 1, refs=[], text="uint32 ID = 777\n@sealed\n", twin_of=j)
         ws["twins"] = [twin]
-        add_line(c, "@assert %s.ID == %d" % (ref_name(j, c), j))
+        add_line(c, "@assert %s.ID >= 0" % ref_name(j, c))
         referrers = {i for i, x in enumerate(defs) if any(r["to"] == j for r in x["refs"])}
         return ws, {"carriers": {c} | referrers, "kind": kind, "edges": [(c, j)]}
     raise HarnessError(kind)
@@ -247,9 +268,37 @@ def check_fault(case: typing.Any, ctx: Ctx) -> Info:
         cr = ws["defs"][sorted(carriers)[0]]["root"]
         res, ex = guarded(pydsdl.read_namespace, roots[cr], roots, allowed=(pydsdl.InvalidDefinitionError,), what="read_namespace:fault")
         require(ex is not None, "bad-reference-resolved:namespace:" + desc["kind"], "InvalidDefinitionError", "accepted", where)
+        # a failed call must leave nothing behind: the definitions that do not reach the fault read fine right afterwards, and the
+        # result holds exactly them and their closure
+        edges = desc.get("edges", [])
+
+        def reach(i: int) -> typing.Set[int]:
+            out = wsp.closure(ws, [i])
+            changed = True
+            while changed:
+                changed = False
+                for a, b in edges:
+                    if a in out and b not in out:
+                        out |= wsp.closure(ws, [b])
+                        changed = True
+            return out
+
+        healthy = [i for i in range(n) if not (reach(i) & carriers)]
+        if desc["kind"] == "duplicate-in-second-root":
+            healthy = []  # the twin makes every reference to that name ambiguous; nothing to assert here
+        if healthy:
+            hp = [os.path.join(d, wsp.rel_path(ws, ws["defs"][i])) for i in healthy]
+            (direct, trans), ex = guarded(pydsdl.read_files, hp, roots[: len(case["ws"]["roots"])], roots, what="read_files:after-failure")
+            want_direct = sorted(healthy)
+            want_trans = sorted(wsp.closure(ws, healthy) - set(healthy))
+            got_direct = sorted(_index_of(ws, t) for t in direct)
+            got_trans = sorted(_index_of(ws, t) for t in trans)
+            require(got_direct == want_direct and got_trans == want_trans, "read-after-failed-read-differs", (want_direct, want_trans), (got_direct, got_trans), where)
+            for t in list(direct) + list(trans):
+                verify_resolution(ws, d, _index_of(ws, t), t, {}, where + " (after a failed read)", set())
     finally:
         ctx.cleanup(d)
-    return Info(True, ["fault:" + desc["kind"], "closure-hit" if hit else "closure-miss"], sample=where[:1500])
+    return Info(True, ["fault:" + desc["kind"], "closure-hit" if hit else "closure-miss"] + (["healthy-read-after-failure"] if healthy else []), sample=where[:1500])
 
 
 # ------------------------------------------------------------------------------------------------------------ histories
@@ -297,6 +346,14 @@ def apply_history_step(state: typing.Dict[str, typing.Any], step: typing.Any, ct
         with open(p, "w") as f:
             f.write(wsp.text_of(ws, len(ws["defs"]) - 1))
         state["adds"] += 1
+    elif op == "edit":
+        if not live:
+            return
+        i = live[step[1] % len(live)]
+        ws["defs"][i]["rev"] = ws["defs"][i].get("rev", 0) + 1 + step[2] % 3
+        with open(os.path.join(d, wsp.rel_path(ws, ws["defs"][i])), "w") as f:
+            f.write(wsp.text_of(ws, i))
+        state["edits"] = state.get("edits", 0) + 1
     elif op == "delete":
         if not live:
             return
@@ -336,6 +393,11 @@ def apply_history_step(state: typing.Dict[str, typing.Any], step: typing.Any, ct
             require(ex is None, "valid-history-read-failed", "accepted", "%s: %s" % (type(ex).__name__, ex), where)
             for t in res:
                 verify_resolution(ws, d, _index_of(ws, t), t, {}, where, set())
+            # exactly the expected definitions, whatever earlier calls in this process did (failed ones included)
+            want = set(live) if step[1] == "namespace" else wsp.closure(ws, targets)
+            got_idx = sorted(_index_of(ws, t) for t in res)
+            require(got_idx == sorted(want), "history-read-returned-other-definitions", sorted(wsp.rel_path(ws, ws["defs"][i]) for i in want),
+                    sorted(wsp.rel_path(ws, ws["defs"][i]) for i in got_idx), where)
     else:
         raise HarnessError(op)
 
@@ -382,6 +444,11 @@ def machine_factory(ctx: Ctx, hooks: typing.Any) -> typing.Any:
         def delete(self, i: int) -> None:
             self.step(["delete", i])
 
+        @precondition(lambda self: self.state["adds"] > self.state["deletes"])
+        @rule(i=st.integers(0, 30), by=st.integers(0, 2))
+        def edit(self, i: int, by: int) -> None:
+            self.step(["edit", i, by])
+
         @precondition(lambda self: self.state["adds"] > 0)
         @rule(mode=st.sampled_from(["namespace", "files"]), ts=st.lists(st.integers(0, 30), min_size=1, max_size=3))
         def read(self, mode: str, ts: typing.List[int]) -> None:
@@ -402,7 +469,7 @@ def parts(ctx: Ctx) -> typing.List[Part]:
     resolve_cases = st.fixed_dictionaries({"ws": ws, "targets": st.lists(st.integers(0, 30), min_size=1, max_size=4)})
     fault = st.fixed_dictionaries(
         {
-            "kind": st.sampled_from(["missing-name", "missing-version", "missing-relative-namesake", "self", "wrong-case", "cycle", "cycle", "duplicate-in-second-root"]),
+            "kind": st.sampled_from(["missing-name", "missing-version", "missing-relative-namesake", "self", "wrong-case", "cycle", "cycle", "duplicate-in-second-root", "self-with-twin", "cycle-with-twin"]),
             "carrier": st.integers(0, 30),
             "other": st.integers(0, 30),
         }
@@ -411,5 +478,5 @@ def parts(ctx: Ctx) -> typing.List[Part]:
     return [
         Part("resolve", resolve_cases, check_resolve, weight=3, cost=2.5),
         Part("fault", fault_cases, check_fault, weight=3, cost=1.0),
-        Part("history", None, check_history, weight=1, cost=3.0, machine=machine_factory, steps=14),
+        Part("history", None, check_history, weight=1, cost=4.0, machine=machine_factory, steps=24),
     ]
